@@ -683,4 +683,198 @@ theorem json_literal_run (cfg : JCfg) (s : JState) (lit : Lit) (rest : List JSt)
       rw [this]
       rw [ih _ (idx + 1) (by simpa using he) (by simp) (by omega) (by omega)]
       simp
+
+/-! ## VLQ values and block contents -/
+
+/-- reachable states of `VLQDecoder`: `k` continuation bytes seen so far -/
+def VlqInv (v : Vlq) (k : Nat) : Prop := k ≤ 9 ∧ v.shift = 7 * k ∧ v.acc < 2 ^ (7 * k)
+
+theorem vlq_payload (b : Nat) : b &&& VLQ_PAYLOAD_MASK = b % 128 := by
+  have := Nat.and_two_pow_sub_one_eq_mod b 7
+  simpa [VLQ_PAYLOAD_MASK] using this
+
+set_option maxRecDepth 100000 in
+theorem vlq_cont_small : ∀ b, b < 256 → ((b &&& VLQ_CONT_BIT = 0) ↔ b < 128) := by decide
+
+theorem vlq_acc_add (v : Vlq) (k b : Nat) (h : VlqInv v k) :
+    v.acc ||| ((b &&& VLQ_PAYLOAD_MASK) <<< v.shift) = v.acc + (b % 128) * 2 ^ (7 * k) := by
+  rw [vlq_payload, h.2.1, Nat.or_comm, ← Nat.shiftLeft_add_eq_or_of_lt h.2.2, Nat.shiftLeft_eq, Nat.add_comm]
+
+theorem vlq_step_more (v v' : Vlq) (k b : Nat) (h : VlqInv v k) (hb : b < 256)
+    (hs : vlqByte v b = .more v') : VlqInv v' (k + 1) ∧ v'.acc = v.acc + (b % 128) * 2 ^ (7 * k) := by
+  unfold vlqByte at hs
+  split at hs
+  · simp at hs
+  · rename_i hne
+    simp only at hs
+    split at hs
+    · simp at hs
+    · rename_i hc
+      simp only [VlqRes.more.injEq] at hs
+      subst hs
+      have hadd := vlq_acc_add v k b h
+      have hge : 128 ≤ b := by
+        have := (not_congr (vlq_cont_small b hb)).mp hc; omega
+      -- shift ≠ 63 here, else the guard would have fired (b ≥ 2)
+      have hk : k ≤ 8 := by
+        rcases Nat.lt_or_ge k 9 with h9 | h9
+        · omega
+        · exfalso; apply hne
+          have : k = 9 := by have := h.1; omega
+          subst this
+          refine ⟨by rw [h.2.1]; rfl, ?_⟩
+          show b ≥ 2; omega
+      refine ⟨⟨by omega, by simp [h.2.1, VLQ_SHIFT_STEP, Nat.mul_add], ?_⟩, hadd⟩
+      simp only [hadd]
+      have : b % 128 < 128 := Nat.mod_lt _ (by decide)
+      have e : 2 ^ (7 * (k + 1)) = 128 * 2 ^ (7 * k) := by
+        rw [show 7 * (k + 1) = 7 + 7 * k by omega, Nat.pow_add]
+      rw [e]
+      have := h.2.2
+      calc v.acc + b % 128 * 2 ^ (7 * k) < 2 ^ (7 * k) + b % 128 * 2 ^ (7 * k) := by omega
+        _ = (b % 128 + 1) * 2 ^ (7 * k) := by rw [Nat.add_mul]; omega
+        _ ≤ 128 * 2 ^ (7 * k) := Nat.mul_le_mul_right _ (by omega)
+
+theorem vlq_step_done (v : Vlq) (k b : Nat) (x : Int) (h : VlqInv v k) (hb : b < 256)
+    (hs : vlqByte v b = .done x) :
+    x = zigzag (v.acc + (b % 128) * 2 ^ (7 * k)) ∧ v.acc + (b % 128) * 2 ^ (7 * k) < 2 ^ 64 := by
+  unfold vlqByte at hs
+  split at hs
+  · simp at hs
+  · rename_i hne
+    simp only at hs
+    split at hs
+    · rename_i hc
+      simp only [VlqRes.done.injEq] at hs
+      rw [vlq_acc_add v k b h] at hs
+      refine ⟨hs.symm, ?_⟩
+      have hlt : b < 128 := (vlq_cont_small b hb).mp hc
+      have hmod : b % 128 = b := Nat.mod_eq_of_lt hlt
+      rw [hmod]
+      rcases Nat.lt_or_ge k 9 with h9 | h9
+      · have h1 : v.acc + b * 2 ^ (7 * k) < 128 * 2 ^ (7 * k) := by
+          have := h.2.2
+          calc v.acc + b * 2 ^ (7 * k) < 2 ^ (7 * k) + b * 2 ^ (7 * k) := by omega
+            _ = (b + 1) * 2 ^ (7 * k) := by rw [Nat.add_mul]; omega
+            _ ≤ 128 * 2 ^ (7 * k) := Nat.mul_le_mul_right _ (by omega)
+        have h2 : 128 * 2 ^ (7 * k) ≤ 2 ^ 64 := by
+          have : 128 * 2 ^ (7 * k) = 2 ^ (7 * k + 7) := by rw [Nat.pow_add]; simp [Nat.mul_comm]
+          rw [this]; exact Nat.pow_le_pow_right (by decide) (by omega)
+        omega
+      · have hk : k = 9 := by have := h.1; omega
+        subst hk
+        have hb2 : b < 2 := by
+          rcases Nat.lt_or_ge b 2 with h2 | h2
+          · exact h2
+          · exfalso; apply hne; exact ⟨by rw [h.2.1]; rfl, h2⟩
+        have := h.2.2
+        have : b * 2 ^ (7 * 9) ≤ 2 ^ 63 := by
+          have : b ≤ 1 := by omega
+          calc b * 2 ^ (7 * 9) ≤ 1 * 2 ^ (7 * 9) := Nat.mul_le_mul_right _ this
+            _ = 2 ^ 63 := by decide
+        have e1 : (2:Nat) ^ (7 * 9) = 2 ^ 63 := by decide
+        have hacc : v.acc < 2 ^ 63 := by have := h.2.2; rwa [e1] at this
+        rw [e1] at this ⊢
+        omega
+    · simp at hs
+theorem vlq_inv_init : VlqInv ⟨0, 0⟩ 0 := ⟨by omega, rfl, by simp⟩
+
+theorem vlq_inv_fits (v : Vlq) (k : Nat) (h : VlqInv v k) : v.acc < 2 ^ 63 ∧ v.shift ≤ 63 := by
+  refine ⟨Nat.lt_of_lt_of_le h.2.2 (Nat.pow_le_pow_right (by decide) (by have := h.1; omega)), ?_⟩
+  rw [h.2.1]; have := h.1; omega
+
+theorem vlqByte_cont (v : Vlq) (k b : Nat) (h : VlqInv v k) (hk : k ≤ 8) (hb : 128 ≤ b ∧ b < 256) :
+    ∃ v', vlqByte v b = .more v' := by
+  unfold vlqByte
+  have h1 : ¬ (v.shift = VLQ_MAX_SHIFT ∧ b ≥ VLQ_LAST_LIMIT) := by
+    rw [h.2.1]; show ¬ (7 * k = 63 ∧ _); omega
+  have h2 : ¬ (b &&& VLQ_CONT_BIT = 0) := by
+    rw [vlq_cont_small b hb.2]; omega
+  simp [h1, h2]
+
+theorem vlqByte_term (v : Vlq) (k t : Nat) (h : VlqInv v k) (hk : k ≤ 8 ∨ t < 2) (ht : t < 128) :
+    ∃ x, vlqByte v t = .done x := by
+  unfold vlqByte
+  have h1 : ¬ (v.shift = VLQ_MAX_SHIFT ∧ t ≥ VLQ_LAST_LIMIT) := by
+    rw [h.2.1]; show ¬ (7 * k = 63 ∧ t ≥ 2); omega
+  have h2 : t &&& VLQ_CONT_BIT = 0 := (vlq_cont_small t (by omega)).mpr ht
+  simp [h1, h2]
+
+/-- from a reachable state, continuation bytes followed by a terminator decode to the varint
+value of the whole group sequence -/
+theorem vlqLong_value (v : Vlq) (k : Nat) (xs : Bytes) (t : Nat) (h : VlqInv v k)
+    (hxs : ∀ b ∈ xs, 128 ≤ b ∧ b < 256) (ht : t < 128)
+    (hlen : k + xs.length ≤ 8 ∨ (k + xs.length = 9 ∧ t < 2)) :
+    vlqLong v (xs ++ [t]) =
+      (.done (zigzag (v.acc + 2 ^ (7 * k) * varintVal (xs ++ [t]))), xs.length + 1) := by
+  induction xs generalizing v k with
+  | nil =>
+    obtain ⟨x, hx⟩ := vlqByte_term v k t h (by simp at hlen; omega) ht
+    have := vlq_step_done v k t x h (by omega) hx
+    simp [vlqLong, hx, varintVal, this.1, Nat.mul_comm]
+  | cons b bs ih =>
+    have hb := hxs b (by simp)
+    obtain ⟨v', hv'⟩ := vlqByte_cont v k b h (by simp at hlen; omega) hb
+    have hm := vlq_step_more v v' k b h hb.2 hv'
+    have := ih v' (k + 1) hm.1 (fun c hc => hxs c (by simp [hc])) (by simp at hlen ⊢; omega)
+    simp only [List.cons_append, vlqLong, hv', this, hm.2, varintVal]
+    congr 2
+    have e : 2 ^ (7 * (k + 1)) = 2 ^ (7 * k) * 128 := by
+      rw [show 7 * (k + 1) = 7 * k + 7 by omega, Nat.pow_add]
+    rw [e, Nat.mul_add, Nat.add_assoc, Nat.mul_assoc, Nat.mul_comm (b % 128)]
+
+/-- ten continuation bytes: the guard `shift == 63 && byte >= 0x02` rejects the tenth -/
+theorem vlqByte_overlong (v : Vlq) (b : Nat) (h : VlqInv v 9) (hb : 2 ≤ b) : vlqByte v b = .err := by
+  unfold vlqByte
+  have : v.shift = VLQ_MAX_SHIFT ∧ b ≥ VLQ_LAST_LIMIT := ⟨by rw [h.2.1]; rfl, hb⟩
+  simp [this]
+
+theorem avro_sync_consts : AVRO_SYNC_LEN = 16 ∧ AVRO_SYNC_REMAINING = 16 ∧ AVRO_SYNC_OFFSET_BASE = 16 := by decide
+
+theorem writeAt_full (sync : Bytes) (h : sync.length = 16) : writeAt syncZero 0 sync = sync := by
+  simp [writeAt, syncZero, avro_sync_consts.1, h]
+
+theorem blk_sync_complete (c : Nat) (d sync : Bytes) (h : sync.length = 16) :
+    runBytes blkStep (.sync c d syncZero AVRO_SYNC_REMAINING) sync = (blkInit, [⟨c, d, sync⟩]) := by
+  have hc := avro_sync_consts
+  rw [blk_run_sync c d sync syncZero AVRO_SYNC_REMAINING (by omega) (by omega) (by omega)]
+  have e : AVRO_SYNC_OFFSET_BASE - AVRO_SYNC_REMAINING = 0 := by omega
+  have e2 : AVRO_SYNC_REMAINING - sync.length = 0 := by omega
+  simp [e, e2, writeAt_full sync h]
+
+theorem blk_data_then_sync (c : Nat) (data sync : Bytes) (h : sync.length = 16) :
+    runBytes blkStep (.data c [] data.length) (data ++ sync) = (blkInit, [⟨c, data, sync⟩]) := by
+  rw [runBytes_append]
+  by_cases hn : data.length = 0
+  · have : data = [] := List.eq_nil_of_length_eq_zero hn
+    subst this
+    simp only [runBytes, List.length_nil, List.nil_append]
+    rw [blkStep_data_zero]
+    have hs := blk_sync_complete c [] sync h
+    cases sync with
+    | nil => simp at h
+    | cons x xs => simp [hs]
+  · rw [blk_run_data c data [] data.length (by omega) (by omega)]
+    simp [blk_sync_complete c data sync h]
+
+/-- a complete OCF block — count varint, size varint, `size` data bytes, 16 sync bytes — is
+decoded to exactly that block, and the decoder is back in its initial state -/
+theorem blk_parses_block_lemma (cb sb data sync : Bytes) (c : Nat)
+    (hc : vlqLong ⟨0, 0⟩ cb = (.done (c : Int), cb.length))
+    (hs : vlqLong ⟨0, 0⟩ sb = (.done (data.length : Int), sb.length))
+    (hsync : sync.length = 16) :
+    runBytes blkStep blkInit (cb ++ sb ++ data ++ sync) = (blkInit, [⟨c, data, sync⟩]) := by
+  have h1 := blk_run_count ⟨0, 0⟩ cb
+  rw [hc] at h1; simp only [List.take_length] at h1
+  have h2 := blk_run_size ⟨0, 0⟩ c sb
+  rw [hs] at h2; simp only [List.take_length] at h2
+  rw [List.append_assoc, List.append_assoc, runBytes_append]
+  simp only [blkInit, h1, afterCount]
+  have : ¬ ((c : Int) < 0) := by omega
+  simp only [this, ↓reduceIte, Int.toNat_natCast, List.nil_append]
+  rw [runBytes_append, h2]
+  simp only [afterSize]
+  have : ¬ ((data.length : Int) < 0) := by omega
+  simp only [this, ↓reduceIte, Int.toNat_natCast, List.nil_append]
+  exact blk_data_then_sync c data sync hsync
 end ArrowModel.C14
